@@ -82,6 +82,8 @@ type Run struct {
 	known    map[string]*knownHit
 	findings []Finding
 	onlyCase int64
+	abortRule  string
+	abortFloor int
 	classCount map[string]int
 	notes    []string
 }
@@ -381,4 +383,101 @@ func Avoid(tag string) bool {
 		}
 	}
 	return false
+}
+
+// ---------------------------------------------------------------- runaway guard
+
+// A call into the code under test that normally returns within milliseconds may, on a broken
+// tree, loop for ever - possibly allocating until the kernel kills the process, which would leave
+// no verdict at all. Bounded runs fn under a watchdog: if the call is still running after
+// `limit` (orders of magnitude above normal), or the process' resident memory passes
+// runawayRSS while it is the longest-running guarded call, a violation of class `class` is
+// recorded for that case, the evidence part file is written and the process ends - a goroutine
+// stuck inside the code under test cannot be stopped. SetFinish must have been called.
+type boundedCall struct {
+	start   time.Time
+	limit   time.Duration
+	idx     int
+	class   string
+	witness func() any
+}
+
+const runawayRSS = 10 << 30 // bytes (guarded workloads normally stay well below 2 GB)
+
+var (
+	boundedMu    sync.Mutex
+	boundedCalls = map[uint64]*boundedCall{}
+	boundedSeq   uint64
+	boundedOnce  sync.Once
+)
+
+// SetFinish registers the rule / floor a runaway abort writes the evidence with.
+func (r *Run) SetFinish(rule string, floor int) {
+	r.mu.Lock()
+	r.abortRule, r.abortFloor = rule, floor
+	r.mu.Unlock()
+}
+
+func rssBytes() uint64 {
+	b, err := os.ReadFile("/proc/self/statm")
+	if err != nil {
+		return 0
+	}
+	var size, res uint64
+	fmt.Sscanf(string(b), "%d %d", &size, &res)
+	return res * uint64(os.Getpagesize())
+}
+
+func (r *Run) boundedWatch() {
+	for {
+		time.Sleep(time.Second)
+		rss := rssBytes()
+		boundedMu.Lock()
+		var culprit *boundedCall
+		why := ""
+		for _, c := range boundedCalls {
+			if time.Since(c.start) > c.limit {
+				culprit, why = c, fmt.Sprintf("still running after %s", c.limit)
+				break
+			}
+		}
+		if culprit == nil && rss > runawayRSS {
+			for _, c := range boundedCalls {
+				if culprit == nil || c.start.Before(culprit.start) {
+					culprit = c
+				}
+			}
+			why = fmt.Sprintf("process memory reached %d GB while it was the longest-running guarded call", rss>>30)
+		}
+		boundedMu.Unlock()
+		if culprit == nil {
+			continue
+		}
+		var w any
+		if culprit.witness != nil {
+			w = culprit.witness()
+		}
+		r.Violation("runaway:"+culprit.class, culprit.idx, "a call into the code under test does not terminate: "+why, w)
+		r.mu.Lock()
+		rule, floor := r.abortRule, r.abortFloor
+		r.mu.Unlock()
+		r.Note("run aborted by the runaway guard: the remaining cases were not executed")
+		r.Finish(rule+" [aborted by the runaway guard]", floor)
+		os.Exit(0)
+	}
+}
+
+func (r *Run) Bounded(idx int, class string, limit time.Duration, witness func() any, fn func()) {
+	boundedOnce.Do(func() { go r.boundedWatch() })
+	boundedMu.Lock()
+	boundedSeq++
+	id := boundedSeq
+	boundedCalls[id] = &boundedCall{start: time.Now(), limit: limit, idx: idx, class: class, witness: witness}
+	boundedMu.Unlock()
+	defer func() {
+		boundedMu.Lock()
+		delete(boundedCalls, id)
+		boundedMu.Unlock()
+	}()
+	fn()
 }
